@@ -115,6 +115,34 @@ def cases(rng, tier):
                     out.append({"w": "rel_set", "mode": mode[0], "pos": n["pos"], "init": n["init"], "kinds": [kind, 1, 2],
                                 "msgs": msgs, "plan": plan, "devs1": None, "devs2": None, "scripts": "inject", "base": ["send", 1],
                                 "stub": {"wait": wait, "group": grp}})
+    # the relative plans themselves on fake motors, answered the way the RunEngine would (positions follow the moves)
+    k = 0
+    for mode in ("z", "f", "f2"):
+        pz = {"z": [I(7), I(-2), I(40)], "f": [F(0.3), F(-2.25), F(1e-3)], "f2": [F(0.1), F(1e15), F(-0.5)]}[mode]
+        num = (lambda x: I(int(x))) if mode == "z" else F
+        for kinds in ([0, 1, 2], [2, 0, 1], [1, 2, 0]):
+            k += 1
+            P = [
+                {"name": "mvr", "args": [[0, num(2)]]},
+                {"name": "mvr", "args": [[1, num(-3)], [2, num(1)]]},
+                {"name": "rel_scan", "args": [[0, num(-1), num(1)]], "num": 3},
+                {"name": "rel_scan", "args": [[1, num(0), num(4)], [2, num(2), num(-2)]], "num": 3},
+                {"name": "rel_list_scan", "args": [[0, [num(1), num(-2), num(1)]]]},
+                {"name": "rel_list_scan", "args": [[2, [num(0), num(3)]], [1, [num(5), num(-5)]]]},
+                {"name": "rel_grid_scan", "args": [[0, num(0), num(2), 2], [1, num(-1), num(1), 2]], "snake": False},
+                {"name": "rel_grid_scan", "args": [[2, num(1), num(3), 2], [0, num(0), num(1), 2]], "snake": True},
+            ]
+            for j, pl in enumerate(P):
+                if mode == "z" and pl["name"] in ("rel_scan", "rel_grid_scan"):
+                    continue          # numpy.linspace makes floats of the end points: float cases only
+                if quick and (j + k) % 2 and mode != "z":
+                    continue
+                out.append({"w": "plan", "mode": mode[0], "kinds": kinds, "init": pz, "plan_call": pl, "fail_at": None})
+                # the same plan failing / stopped / aborted at some message: the oracle alone judges these
+                for at in ((2, "User0"), (5, "RequestAbort"), (9, "RequestStop"), (14, "User0"), (23, "RequestAbort")):
+                    if quick and (at[0] + j + k) % 3:
+                        continue
+                    out.append({"w": "plan", "mode": mode[0], "kinds": kinds, "init": pz, "plan_call": pl, "fail_at": list(at)})
     # random wrapped plans
     nrand = 40 if quick else 1200
     for _ in range(nrand):
@@ -206,6 +234,8 @@ def _status_answer(s, t):
 
 
 def impl(case):
+    if case["w"] == "plan":
+        return impl_plan(case)
     import contextlib
     import io
     runs = []
@@ -233,6 +263,176 @@ def impl(case):
     return {"runs": runs}
 
 
+# ------------------------------------------------------------------------------ the rel_* plans under a mini engine
+
+class Engine:
+    """Answers messages the way the RunEngine would for the fake motors: locate / read report the motor's current
+    position, set moves it; everything is recorded by content."""
+
+    def __init__(self, case):
+        from harness.drivers import scan_fakes
+        self.case = case
+        self.motors = [R.KINDS[k](i, R.num_py(case["init"][i])) for i, k in enumerate(case["kinds"])]
+        self.det = scan_fakes.make_det("det", True)
+        self.pos = []            # positions reported so far (the case's answer table grows as the run goes)
+        self.groups = {}
+        self.others = []
+
+    def group(self, g):
+        if g is None:
+            return 0
+        if g not in self.groups:
+            if isinstance(g, str) and g.startswith("reset-"):
+                self.groups[g] = 104 + 1000 * sum(1 for x in self.groups.values() if x % 1000 == 104)
+            else:
+                self.groups[g] = 200 + sum(1 for x in self.groups.values() if x >= 200 and x % 1000 != 104)
+        return self.groups[g]
+
+    def content(self, m):
+        c, o, a, k = m.command, m.obj, m.args, dict(m.kwargs)
+        mot = o.idx if isinstance(o, R._Base) else None
+        if c == "set" and mot is not None and len(a) == 1 and set(k) <= {"group"}:
+            n = R.num_js(a[0])
+            if self.case["mode"] == "f" and n[0] == "i":
+                n = ["f", float(n[1]).hex()]
+            return ["set", mot, n, self.group(k.get("group"))]
+        if c in ("locate", "read") and mot is not None and not a and not k:
+            return [c, mot]
+        if c == "wait" and o is None and not a and set(k) <= {"group", "timeout", "error_on_timeout", "watch"}:
+            return ["wait", self.group(k.get("group"))]
+        key = [c, getattr(o, "name", None)]
+        if key not in self.others:
+            self.others.append(key)
+        return ["other", self.others.index(key)]
+
+    def answer(self, m):
+        """(object to send, script letter)"""
+        o = m.obj
+        if isinstance(o, R._Base) and m.command in ("locate", "read"):
+            p = R.num_js(o._pos)
+            if self.case["mode"] == "f" and p[0] == "i":
+                p = ["f", float(p[1]).hex()]
+            if p not in self.pos:
+                self.pos.append(p)
+            k = self.pos.index(p)
+            return R.Answer(o._pos, k), ["send", k]
+        if isinstance(o, R._Base) and m.command == "set":
+            return o.set(m.args[0]), ["send", 50]
+        return None, ["send", None]
+
+    def make(self, relative):
+        from bluesky import plan_stubs as bps
+        from bluesky import plans as bp
+        pc = self.case["plan_call"]
+        M, n = self.motors, pc["name"]
+        if n == "mvr":
+            args = [x for d, v in pc["args"] for x in (M[d], R.num_py(v))]
+            return (bps.mvr if relative else bps.mv)(*args)
+        if n == "rel_scan":
+            args = [x for d, a, b in pc["args"] for x in (M[d], R.num_py(a), R.num_py(b))]
+            return (bp.rel_scan if relative else bp.scan)([self.det], *args, num=pc["num"])
+        if n == "rel_list_scan":
+            args = [x for d, vs in pc["args"] for x in (M[d], [R.num_py(v) for v in vs])]
+            return (bp.rel_list_scan if relative else bp.list_scan)([self.det], *args)
+        if n == "rel_grid_scan":
+            args = [x for d, a, b, k in pc["args"] for x in (M[d], R.num_py(a), R.num_py(b), k)]
+            return (bp.rel_grid_scan if relative else bp.grid_scan)([self.det], *args, snake_axes=pc["snake"])
+        raise ValueError(n)
+
+    def run(self, relative, fail_at=None):
+        gen = self.make(relative)
+        trace, script = [], []
+        inp = None
+        letter = ["send", None]
+        try:
+            k = 0
+            while True:
+                script.append(letter)
+                if letter[0] == "throw":
+                    m = gen.throw(D.TEXC[letter[1]]())
+                else:
+                    m = gen.send(inp)
+                trace.append(["y", "v", self.content(m)])
+                k += 1
+                if fail_at is not None and k == fail_at[0]:
+                    inp, letter = None, ["throw", fail_at[1]]
+                    fail_at = None
+                else:
+                    inp, letter = self.answer(m)
+        except StopIteration:
+            trace.append(["r", None])
+        except BaseException as e:  # noqa: BLE001
+            trace.append(["e", D.exc_name(e)])
+        return script, trace
+
+
+def impl_plan(case):
+    import contextlib
+    import io
+    with contextlib.redirect_stdout(io.StringIO()):
+        er = Engine(case)
+        _, tape = er.run(False)                       # the absolute plan: what the relative plan wraps
+        # the same device objects again (set/dict orders inside the plans depend on their hashes), back at the start
+        for i, m in enumerate(er.motors):
+            m._pos = R.num_py(case["init"][i])
+            del m.calls[:]
+        er.groups, er.pos = {}, []
+        script, trace = er.run(True, case["fail_at"])
+    motors = [[R.num_js(m._pos), list(m.calls)] for m in er.motors]
+    for x in motors:                                  # float cases: a literal int position counts as the float
+        if case["mode"] == "f":
+            x[0] = ["f", float(x[0][1]).hex()] if x[0][0] == "i" else x[0]
+            x[1] = [(["f", float(c[1]).hex()] if c[0] == "i" else c) for c in x[1]]
+    return {"tape": [o[2] for o in tape if o[0] == "y"], "script": script, "trace": trace, "pos": er.pos, "motors": motors,
+            "runs": []}
+
+
+def plan_offsets(case):
+    """the offsets each motor is asked to go to, in order of request, read off the plan's arguments"""
+    import itertools
+    pc = case["plan_call"]
+    n = pc["name"]
+    off = {}
+    if n == "mvr":
+        for d, v in pc["args"]:
+            off[d] = [R.num_py(v)]
+    elif n == "rel_list_scan":
+        for d, vs in pc["args"]:
+            off[d] = [R.num_py(v) for v in vs]
+    return off
+
+
+def oracle_plan(case, obs):
+    """every set on a motor of the plan is its initial position plus an offset the plan asked for (exactly, in Python's own
+    arithmetic, for the plans whose offsets are literal arguments), and the motors end where they started"""
+    init = [R.num_py(x) for x in case["init"]]
+    tr = obs["trace"]
+    bad = [o for o in tr if o[0] == "y" and o[2][0] == "bad"]
+    if bad:
+        return "unexpected message: %s" % (bad[0],)
+    used = sorted({a[0] for a in case["plan_call"]["args"]})
+    moved = [d for d in used if obs["motors"][d][1]]
+    name = case["plan_call"]["name"]
+    off = plan_offsets(case)
+    for d in used:
+        calls = [R.num_py(c) for c in obs["motors"][d][1]]
+        if name != "mvr" and calls and tr[-1][0] in ("r", "e") and not (tr[-1][0] == "e" and tr[-1][1] in GE):
+            if R.num_js(calls[-1]) != R.num_js(init[d]) and R.num_py(R.num_js(calls[-1])) != init[d]:
+                return "motor %d started at %r and was left at %r (moves: %r)" % (d, init[d], calls[-1], calls)
+        if d in off:
+            body = calls if name == "mvr" else calls[:-1]
+            want = [init[d] + o for o in off[d]]
+            # scans skip a move to the position the motor is already at
+            it = iter(want)
+            for c in body:
+                for w in it:
+                    if R.num_js(w) == R.num_js(c) or w == c:
+                        break
+                else:
+                    return "motor %d (initial %r) was sent to %r, the plan asked for the offsets %r" % (d, init[d], c, off[d])
+    return None
+
+
 # ------------------------------------------------------------------------------ model side
 
 def universe(case, runs):
@@ -258,7 +458,45 @@ def c_optl(ds):
     return "None" if ds is None else "(Some [%s])" % "; ".join(str(d) for d in ds)
 
 
+def coq_term_plan(case, obs):
+    """success path only: the wrapped plan is the recorded message list of the absolute plan (valid while nothing is
+    thrown into it); failing runs are judged by the oracle alone"""
+    if case["fail_at"] is not None:
+        return None
+    tbl = []
+    for c in obs["tape"]:
+        if c not in tbl:
+            tbl.append(c)
+    trace = []
+    n = 0
+    used = sorted({a[0] for a in case["plan_call"]["args"]})
+    for o in obs["trace"]:
+        if o[0] == "y":
+            c = o[2]
+            if c not in tbl:
+                tbl.append(c)
+            if c[0] == "set" and c[3] % 1000 != 104 and c[1] in used:       # an object made by rewrite_pos
+                trace.append(["y", "v", c, n])
+                n += 1
+            else:
+                trace.append(["y", "v", c])
+        else:
+            trace.append(o)
+    prog = None
+    for c in reversed(obs["tape"]):
+        y = ["yield", None, tbl.index(c)]
+        prog = y if prog is None else ["seq", y, prog]
+    W = 0 if case["plan_call"]["name"] == "mvr" else 2
+    R_ = "[(%s, [%s])]" % (G.c_script(obs["script"][:len(trace)]), "; ".join(c_obs(o, tbl) for o in trace))
+    fn = "c24_z" if case["mode"] == "z" else "c24_f"
+    init = case["init"]
+    return "%s %d %s %s %s %s %s %s %s false %s" % (fn, W, R.c_nums(obs["pos"]), R.c_nums(init), D.c_list(case["kinds"]),
+                                                  c_optl(used), c_optl(used), R.c_tbl(tbl), G.to_coq(prog or ["pass"]), R_)
+
+
 def coq_term(case, obs):
+    if case["w"] == "plan":
+        return coq_term_plan(case, obs)
     runs = obs["runs"]
     tbl = universe(case, runs)
     W = {"relative": 0, "rel_set": 0, "reset": 1, "both": 2}[case["w"]]
@@ -399,6 +637,8 @@ def run_layers(case, s, t, rec, ids):
 
 
 def oracle(case, obs):
+    if case["w"] == "plan":
+        return oracle_plan(case, obs)
     for s, t, rec, ids in obs["runs"]:
         bad = [o for o in t if o[0] == "y" and o[1] == "v" and o[2][0] == "bad"]
         if bad:
@@ -417,6 +657,8 @@ def oracle(case, obs):
 def finding(case, obs):
     """Mirror of finding class C24-a: in some run a layer sees the plan yield the same set Msg object again, on an
     eligible device whose initial position that layer has not recorded."""
+    if case["w"] == "plan":
+        return None
     for s, t, rec, ids in obs["runs"]:
         for L in run_layers(case, s, t, rec, ids):
             L.check()
@@ -426,9 +668,14 @@ def finding(case, obs):
 
 
 def nontrivial(case, obs):
+    if case["w"] == "plan":
+        return any(m[1] for m in obs["motors"])
     return any(len(r[1]) >= 4 and any(o[0] == "y" and o[1] == "v" and o[2][0] == "set" for o in r[1]) for r in obs["runs"])
 
 
 def describe(case):
+    if case["w"] == "plan":
+        return "plan %s %s kinds=%s%s" % (case["plan_call"]["name"], case["mode"], "".join(map(str, case["kinds"])),
+                                          " failing" if case["fail_at"] else "")
     return "%s %s %s kinds=%s%s" % (case["w"], case["mode"], case["scripts"], "".join(map(str, case["kinds"])),
                                     " rand" if case.get("rand") else "")
